@@ -15,7 +15,7 @@ EXPLANATION = (
 
 
 def check(ctx, run):
-    run.rules_run = ['R06.1', 'R06.2', 'R06.3', 'R06.4', 'R06.5', 'R06.8', 'R06.9', 'R05.1/R05.2(iterators)', 'R06.12', 'R06.13', 'R06.14', 'R06.15', 'R06.16', 'R06.17', 'R05.14']
+    run.rules_run = ['R06.1', 'R06.2', 'R06.3', 'R06.4', 'R06.5', 'R06.8', 'R06.9', 'R05.1/R05.2(iterators)', 'R06.12', 'R06.13', 'R06.14', 'R06.15', 'R06.16', 'R06.17', 'R06.19', 'R05.14']
     ba = buffers.BufferAnalysis(ctx)
     from rules.c17 import entries
     for e in entries(ctx):
@@ -29,6 +29,7 @@ def check(ctx, run):
     editing.r07_3_5(ctx, run, rule3='R06.4/R07.3', rule5='R06.4/R07.5')
     editing.r06_5(ctx, run)
     editing.r06_8(ctx, run)
+    editing.r06_19(ctx, run)
     editing.r06_9(ctx, run, which=('bytes',))
     only = lambda p: 'iterator' in p
     walkers.w_init(ctx, run, 'R06.9/R05.1', only=only, floor=7)
